@@ -16,6 +16,10 @@ pub struct F {
     pub msg: String,
 }
 
+fn script_p(resume: &str, pulse: bool) -> String {
+    script(resume).replacen("  run:", if pulse { "  pulse: 15\n  run:" } else { "  run:" }, 1)
+}
+
 fn script(resume: &str) -> String {
     let r = if resume == "tail" { String::new() } else { format!("  resume_from: \"{}\"\n", resume) };
     format!(
@@ -60,7 +64,8 @@ pub fn run_case(case: &Value) -> (Vec<F>, String) {
         "after" => p0.id.to_string(),
         x => x.to_string(),
     };
-    let reg = w.append_c("h.register", ctx, Some(&script(&resume_s)), None);
+    let pulse = case["pulse"].as_bool().unwrap_or(false);
+    let reg = w.append_c("h.register", ctx, Some(&script_p(&resume_s, pulse)), None);
     let registered = w.wait(|f| f.topic == "h.registered" && meta_str(f, "handler_id") == Some(reg.id.to_string()), 20.0);
     let Some(registered) = registered else {
         fs.push(F { kind: "c14.harness".into(), msg: format!("{}: handler did not register", label) });
@@ -214,6 +219,10 @@ pub fn cases(thorough: bool) -> Vec<Value> {
                         continue;
                     }
                     v.push(json!({"resume": resume, "old_instance": old, "second_handler": second, "burst": burst}));
+                    if burst == 3 && !old {
+                        // with heartbeats: pulses are extra invocations, never replacements
+                        v.push(json!({"resume": resume, "old_instance": old, "second_handler": second, "burst": burst, "pulse": true}));
+                    }
                 }
             }
         }
